@@ -18,6 +18,11 @@
 #[path = "private.rs"]
 pub mod __private;
 
+#[cfg(feature = "verif_hooks")]
+#[doc(hidden)]
+#[path = "verif/mod.rs"]
+pub mod __verif;
+
 #[macro_use]
 mod util;
 
